@@ -47,6 +47,7 @@ bool break_lbuf(const Schema& s, Value& v, Tape& t) {
 // ------------------------------------------------------------------------------------------------
 // C01: round trip, exact consumption, every writer x reader pairing, several values per stream.
 std::string body_C01(Ctx& c, CaseIn& in) {
+  FormGuard form_guard(in); c.rep.label(std::string("form:") + FormGuard::name());
   Tape& tp = *in.rest;
   // The stream: the case's own (type, value) first, then 0..3 further values of shard types.
   struct Item { const TypeOps* t; Value v; std::unique_ptr<Obj> o; Value expect; };
@@ -250,6 +251,7 @@ void extra_C03(Ctx& c) {
 // ------------------------------------------------------------------------------------------------
 // C06: GetSize is an upper bound (exact without handles); buffer writers never overrun.
 std::string body_C06(Ctx& c, CaseIn& in) {
+  FormGuard form_guard(in); c.rep.label(std::string("form:") + FormGuard::name());
   const TypeOps& t = *in.t;
   Tape& tp = *in.rest;
   auto o = t.make(); o->assign(in.v);
@@ -356,6 +358,7 @@ static std::string cuts_fail(Ctx& c, const TypeOps& t, const Bytes& bytes, const
 }
 
 std::string body_C05(Ctx& c, CaseIn& in) {
+  FormGuard form_guard(in); c.rep.label(std::string("form:") + FormGuard::name());
   const TypeOps& t = *in.t;
   Tape& tp = *in.rest;
   auto o = t.make(); o->assign(in.v);
@@ -402,11 +405,21 @@ std::string body_C10(Ctx& c, CaseIn& in) {
   const TypeOps& t = *in.t;
   Tape& tp = *in.rest;
   static const int errs[] = {E_WriteLimitReached, E_StreamError, E_IOError, E_SystemError, E_ProtocolError, E_InvalidHandleReference, E_DebugError};
+  // growable byte/integral sequences: whenever the empty value comes up, a payload of several KiB is run too
+  // (an implementation that transfers large payloads in pieces has more than one block transfer to fail in)
+  if ((t.schema->k == K::Bin || t.schema->k == K::Str) && t.schema->fixed < 0 && t.schema->maxc < 0 && in.v.bytes.empty() && !in.nested) {
+    CaseIn big = in; big.nested = true;
+    lcg_fill(big.v.bytes, (size_t)(9000 + tp.below(4000)) / (t.schema->bits / 8) * (t.schema->bits / 8), 77);
+    std::string m = body_C10(c, big);
+    if (!m.empty()) return m;
+    c.rep.label("large-payload-faults");
+  }
   auto o = t.make(); o->assign(in.v);
   Value actual = o->get();
   std::vector<int64_t> refs; if (t.has_handle) { std::vector<const Value*> hs0; collect_handles(*t.schema, actual, hs0); refs = gen_refs(tp, hs0.size()); }
   bool composite = !t.schema->kids.empty() || !t.schema->entries.empty();
   bool nontrivial = false;
+  const uint64_t any_base = tp.below(18);
   Bytes clean_bytes; std::vector<PushRec> clean_pushed;
   // ---- write direction
   for (int wk : {W_Log, W_BLog}) {
@@ -417,9 +430,9 @@ std::string body_C10(Ctx& c, CaseIn& in) {
     size_t n = w0.log.log.size();
     if (wk == W_Log) { clean_bytes = w0.log.out; clean_pushed = w0.log.pushed; }
     for (size_t k = 0; k < n; k++) {
-      for (size_t ei = 0; ei < 7; ei++) {
-        if (n > 150 && ei != k % 7) continue;
-        int e = errs[ei];
+      for (size_t ei = 0; ei < 8; ei++) {
+        if (n > 150 && ei != k % 7 && ei != 7) continue;
+        int e = ei < 7 ? errs[ei] : 1 + (int)((any_base + k) % 18);   // the 8th code cycles through ALL ErrorStatus values
         WriterBox w; w.open(wk, SIZE_MAX, SIZE_MAX); w.log.refs_to_return = refs; w.log.fault.fail_at = (long)k; w.log.fault.err = e;
         int s = o->write(w);
         c.rep.evaluations++;
@@ -441,9 +454,9 @@ std::string body_C10(Ctx& c, CaseIn& in) {
     if (s0 != 0) return fmt("clean-read-failed: %s: %s", rk_name(rk), err_name(s0));
     size_t n = r0.log.log.size();
     for (size_t k = 0; k < n; k++) {
-      for (size_t ei = 0; ei < 7; ei++) {
-        if (n > 150 && ei != k % 7) continue;
-        int e = rerrs[ei];
+      for (size_t ei = 0; ei < 8; ei++) {
+        if (n > 150 && ei != k % 7 && ei != 7) continue;
+        int e = ei < 7 ? rerrs[ei] : 1 + (int)((any_base + k + 5) % 18);
         ReaderBox r; r.open(rk, clean_bytes); r.log.handles = ht; r.log.fault.fail_at = (long)k; r.log.fault.err = e;
         auto o2 = t.make();
         int s = o2->read(r);
@@ -456,7 +469,7 @@ std::string body_C10(Ctx& c, CaseIn& in) {
     c.rep.label(std::string("read-faults:") + rk_name(rk), (long)n);
   }
   if (nontrivial) c.rep.nontriv(case_hash(t, actual));
-  c.rep.sample(fmt("%s %s: every call index x 7 errors, both directions", t.name.c_str(), to_text(*t.schema, actual).substr(0, 100).c_str()));
+  c.rep.sample(fmt("%s %s: every call index x 8 errors (7 fixed + one cycling through all 18 codes), both directions", t.name.c_str(), to_text(*t.schema, actual).substr(0, 100).c_str()));
   return "";
 }
 
